@@ -253,7 +253,7 @@ func bufClass(n int) string {
 }
 
 func holeJobs(r *ev.Run) []job {
-	n := r.Pick(96, 1500)
+	n := r.Pick(240, 3000)
 	var jobs []job
 	for i := 0; i < n; i++ {
 		id := fmt.Sprintf("z%d;", i)
